@@ -110,8 +110,83 @@ def diff(repo, ref_path):
     return out
 
 
+def _eval_int(expr, macros, depth=0):
+    """value of a constant expression made of integer literals, other object-like macros and + - * / << >> ( ); None otherwise"""
+    expr = re.sub(r"\b(0[xX][0-9a-fA-F]+|\d+)[uUlL]*\b", lambda m: str(int(m.group(1), 0)) if not (m.group(1).startswith("0") and m.group(1).isdigit() and len(m.group(1)) > 1) else str(int(m.group(1), 8)), expr)
+    def sub(m):
+        v = macros.get(m.group(0))
+        if v is None or depth > 6:
+            raise ValueError(m.group(0))
+        r = _eval_int(v, macros, depth + 1)
+        if r is None:
+            raise ValueError(m.group(0))
+        return str(r)
+    try:
+        expr = re.sub(r"\b[A-Za-z_]\w*\b", sub, expr)
+    except ValueError:
+        return None
+    if not re.fullmatch(r"[\d\s()+\-*/<>]+", expr) or not re.search(r"\d", expr):
+        return None
+    try:
+        v = eval(expr.replace("/", "//"), {"__builtins__": {}}, {})
+    except Exception:
+        return None
+    return v if isinstance(v, int) else None
+
+
+def constants(repo):
+    """{file: {value: occurrences}} -- integer literals in the code of each file plus the values its object-like
+    macros evaluate to.  Used only to steer size sweeps (a size that newly appears in the source is a size worth
+    standing on both sides of), never for a verdict."""
+    macros, texts = {}, {}
+    for d in DIRS:
+        full = os.path.join(repo, d)
+        if not os.path.isdir(full):
+            continue
+        for f in sorted(os.listdir(full)):
+            if f.endswith((".c", ".h")):
+                src = strip(open(os.path.join(full, f), errors="replace").read())
+                src = re.sub(r'"(?:\\.|[^"\\\n])*"', '""', src)
+                src = re.sub(r"'(?:\\.|[^'\\\n])*'", "0", src)
+                texts[os.path.join(d, f)] = src
+                for m in re.finditer(r"^[ \t]*#[ \t]*define[ \t]+(\w+)[ \t]+((?:[^\n]*\\\n)*[^\n]*)", src, flags=re.M):
+                    macros.setdefault(m.group(1), m.group(2).replace("\\\n", " ").strip())
+    out = {}
+    for f, src in texts.items():
+        cnt = {}
+        for m in re.finditer(r"(?<![\w.])(0[xX][0-9a-fA-F]+|\d+)[uUlL]*(?![\w.])", src):
+            try:
+                v = int(m.group(1), 0) if not (m.group(1).isdigit() and m.group(1).startswith("0") and len(m.group(1)) > 1) else int(m.group(1), 8)
+            except ValueError:
+                continue
+            cnt[v] = cnt.get(v, 0) + 1
+        for m in re.finditer(r"^[ \t]*#[ \t]*define[ \t]+(\w+)[ \t]+((?:[^\n]*\\\n)*[^\n]*)", src, flags=re.M):
+            v = _eval_int(m.group(2).replace("\\\n", " "), macros)
+            if v is not None and not re.fullmatch(r"\s*\(?\s*(0[xX][0-9a-fA-F]+|\d+)[uUlL]*\s*\)?\s*", m.group(2)):
+                cnt[v] = cnt.get(v, 0) + 1
+        out[f] = {str(k): n for k, n in sorted(cnt.items())}
+    return out
+
+
+def hints(repo, ref_path):
+    """sizes that occur more often in some file of the current tree than in the tree the model was validated against"""
+    ref = json.load(open(ref_path))
+    cur = constants(repo)
+    out = set()
+    for f, cnt in cur.items():
+        old = ref.get(f, {})
+        for k, n in cnt.items():
+            if n > old.get(k, 0) and 8 <= int(k) <= 1 << 40:
+                out.add(int(k))
+    return sorted(out)
+
+
 if __name__ == "__main__":
-    if sys.argv[1] == "snapshot":
+    if sys.argv[1] == "constants":
+        json.dump(constants(sys.argv[2]), sys.stdout, indent=0, sort_keys=True)
+    elif sys.argv[1] == "hints":
+        print(hints(sys.argv[2], sys.argv[3]))
+    elif sys.argv[1] == "snapshot":
         json.dump(snapshot(sys.argv[2]), sys.stdout, indent=0, sort_keys=True)
     else:
         for t in diff(sys.argv[2], sys.argv[3]):
